@@ -39,9 +39,51 @@ S = {
  "C20-2": ("growBytesSliceCapacity grows to the exact size with make+copy", "a long run of \\uXXXX escapes through ReadStringBytes/ReadValue into a small buffer: quadratic"),
  "C20-3": ("new child reader gets a stringBuf with the parent's capacity", "fresh reader: one long string followed by deep tiny nesting"),
 }
+
+S2 = {
+ "C03-4": ("depth check moved before the pool borrow; one of four sites uses > where the others use >=", "document nested 10,001 deep whose deepest container is an array that is directly an object member"),
+ "C03-5": ("fieldNameBuf and stringBuf lazily carved from one 128-byte allocation without capping the first", "escaped key of decoded length 65..128 whose value is a string <= 64 bytes, on a reader that has not grown either buffer"),
+ "C03-6": ("manual depth resets; ReadObject's null-rejection return forgets one; null check skipped for non-top-level readers", "after one rejected ReadObject(null), later ReadObject/ReadArray on the same reader accept null as an empty container"),
+ "C07-4": ("checkHandlerDepth returns errMaxDepth when len(buffer.stackBuf) > skipMaxDepth", "a Buffer once used on a document nested >= 10,002 deep, then any Handle*Values call with it"),
+ "C07-5": ("early exit after skipFloatDec/skipFloatExp errors removed in the handler machines", "dangling number (1. / 1e / 3E+) inside a declined member, followed by another member"),
+ "C07-6": ("one transition of the array machine ({ after whitespace as first element of a nested array) goes to the member-level transition", "declining handler, nested '[ {' with whitespace between: handler invoked on non-members, early success offset"),
+ "C08-4": ("SkipValueFast's stack enlargement allocates a new slice without copying live entries", "fresh Buffer with >= 16 same-kind nested containers skipped with SkipValueFast: nil error, offset inside the value"),
+ "C08-5": ("escape branch of ReadStringBytes appends to buf[:0]", "decoder appending several strings into one buffer, one of them with an escape: wrong tree, offsets correct"),
+ "C08-6": ("nil-Buffer branch of SkipValue calls skipValueFast", "decoder skipping with SkipValue(data, nil) accepts malformed content inside bracket-balanced containers"),
+ "C09-4": ("array machine: range check moved above the error check", "handler error on a string/array/object member together with an offset past the end of the data"),
+ "C09-5": ("object machine try_handler_simple uses the handler's error as a map key", "scalar member, handler returns an error of unhashable dynamic type (slice/map/func): panic"),
+ "C09-6": ("HandlerFunc adapters turn an error interface holding a typed nil pointer into nil", "func handler returns a sentinel that is a typed nil pointer: swallowed, traversal continues"),
+ "C12-4": ("nullOrBust starts the null check at the offset where the reader gave up", "prefix the reader half-consumes followed by null: -null, tnull, 1e999null"),
+ "C12-5": ("nullOrBust rejects null followed by a letter, digit or underscore", "inputs that begin with null followed by an identifier character: nullable, null0"),
+ "C12-6": ("ReadNull fast path helper skips byte 0", "any ?ull at offset 0 that the reader rejects is accepted as null: full, Null, -ull"),
+ "C14-4": ("Buffer nesting counter capped at skipMaxDepth, decrement skipped on error returns", ">= 10,000 failed Handle*Values calls on one Buffer, then any Handle*Values call"),
+ "C14-5": ("skip machines' prepush replaces a stack shorter than 8 with make([]int, 8)", "a Buffer whose stack a Handle*Values call left at length 2..7, then SkipValue/Valid on a deeper document"),
+ "C14-6": ("Valid records the accepted slice header in the Buffer; SkipValue then uses the fast machine for the same address+length", "caller copies a different same-length bracket-balanced invalid message into the same backing array after a successful Valid"),
+ "C15-4": ("key scratch buffer truncated only after a member is stored", "failing call with an escaped key in flight, then an escaped key handled first by that reader"),
+ "C15-5": ("result slice allocated lazily on the first item", "[] read right after a non-empty array, caller appends to the later empty result: earlier array overwritten"),
+ "C15-6": ("top-level string >= 128 bytes returned pointing at stringBuf (unsafe)", "ReadValue of a long bare string, then a later string read through the same reader"),
+ "C16-4": ("shared escape-tail helper resets its buffer with [:0]", "ReadStringBytes with a non-empty destination and an escaped string"),
+ "C16-5": ("returnValueReader nils the child's containers; ReadObject keeps objVal when non-nil and empty", "direct ReadObject returning {}, then a second direct ReadObject with a non-empty object"),
+ "C16-6": ("StdLibCompatibleStringBytes fast path validates the whole buffer instead of the appended part", "destination ending in the middle of a multi-byte sequence, input starting with the matching continuation bytes"),
+ "C18-4": ("package-level spare ValueReader behind a CAS flag; deferred clear runs for losers too", "three-step overlap of package-level ReadValue calls on top-level strings"),
+ "C18-5": ("SkipValueFast with nil Buffer starts from a package-level zero-length, capacity-32 stack", "concurrent SkipValueFast(nil) on containers nested >= 2"),
+ "C18-6": ("package-level atomic handlerDepth recursion guard (limit 10,000)", "handlers recursing through the public functions in several goroutines whose combined depth exceeds 10,000; no data race"),
+ "C19-4": ("skipValue prepush grows with append(stack, 0)", "second use of a Buffer on a document of exactly the same depth 1,2,4,8,.. (cap == len)"),
+ "C19-5": ("decimal.Shift calls through a function value: decimal escapes to the heap", "any float reaching the slow fallback"),
+ "C19-6": ("unescapeUnicodeChar reserves origLen+2*UTFMax", "UnescapeStringContent with spare capacity exactly the input length and a non-pair \\u escape within 2 bytes of the end"),
+ "C20-4": ("ReadArray without a slice hint falls back to lastMapSize (never consumed)", "a large object followed by many empty arrays on one reader"),
+ "C20-5": ("unescapeStringContent pre-grows by cap(data) instead of len(data)", "escaped keys at many nesting levels with a large remainder of the document after them"),
+ "C20-6": ("Handle*Values run on a defensive copy of buffer.stackBuf", "a deep SkipValue/Valid on a Buffer, then many tiny traversals with the same Buffer"),
+ "C10-4": ("skipValueFast stack allocated once (if nil) and never grown", "a Buffer last used by another entry point (short non-nil stack) then SkipValueFast on a deeper value: panic"),
+ "C10-5": ("getu4(s[6:12]) reslice bounded by capacity, not length", "high-surrogate escape within 11 bytes of the end of cap(data): panic / reads beyond the input"),
+ "C10-6": ("object machine try_handler: single unsigned check uint(p+pp-1) >= uint(pe)", "small negative handler offset landing on a valid resume position: accepted, never terminates if repeated"),
+}
+S.update(S2)
 for key in sys.argv[1:]:
     p, n = key.split('-')
     src = '/tmp/wt_%s/mutants/%s' % (p, n)
+    if int(n) > 3:
+        src = '/tmp/wt_%s/mutants/%d' % (p, int(n) - 3)  # second wave: delivered as 1..3, kept as 4..6
     dst = '/verif/seeded/%s' % key
     os.makedirs(dst, exist_ok=True)
     for f in ('patch.diff', 'demo_test.go', 'notes.md'):
